@@ -42,3 +42,30 @@ Proof.
   intros H Hb. unfold table_partitioner. rewrite (from_str_murmur3 s H).
   apply (feed_chunking PMurmur3 chunks Hb).
 Qed.
+
+(* ---- the metadata chain ---- *)
+Theorem cdc_table_chain rows ks t name chunks :
+  partitioners_get rows ks t None = Some (Some name) -> ends_with name cdc_suffix = true ->
+  feed (prepared_partitioner (Some rows) true (Some (ks, t))) chunks = cdc_token_spec (List.concat chunks).
+Proof.
+  intros Hg He. unfold prepared_partitioner, table_meta_partitioner. rewrite Hg.
+  apply cdc_table_token. exact He.
+Qed.
+
+Theorem murmur3_table_chain rows ks t name chunks :
+  partitioners_get rows ks t None = Some (Some name) -> ends_with name murmur3_suffix = true ->
+  (Z.of_nat (List.length (List.concat chunks)) < 2 ^ 63)%Z ->
+  feed (prepared_partitioner (Some rows) true (Some (ks, t))) chunks = murmur3_token_spec (List.concat chunks).
+Proof.
+  intros Hg He Hb. unfold prepared_partitioner, table_meta_partitioner. rewrite Hg.
+  apply murmur3_table_token; assumption.
+Qed.
+
+(* the last row of a table decides *)
+Lemma partitioners_get_last rows ks t p acc :
+  partitioners_get (rows ++ [((ks, t), p)]) ks t acc = Some p.
+Proof.
+  revert acc; induction rows as [|[[k n] q] r IH]; intros acc; cbn [partitioners_get app].
+  - rewrite !String.eqb_refl. reflexivity.
+  - destruct (String.eqb k ks && String.eqb n t)%bool; apply IH.
+Qed.
